@@ -1,9 +1,368 @@
-import VncModel.Ws.Decoder
-import VncModel.Ws.Codec
+import VncModel.Ws.LemmasStep
+import VncModel.Ws.LemmasStrict
+import VncModel.Ws.LemmasEncoder
+import VncModel.Ws.LemmasB64Law
 import VncModel.Ws.Handshake
-namespace VncModel.Props.C09
-open VncModel.Ws
+/-!
+# C09 — WebSocket transport is transparent and strict
 
-theorem placeholder_partial : Ctx.init.st = .headerPending := rfl
+Property theorems only; helper lemmas live in `VncModel/Ws/Lemmas*.lean`, the model in
+`VncModel/Ws/{Bytes,Base64,Codec,Decoder,Handshake}.lean`, the specification vocabulary
+(`Frame`, `ValidSeq`, `expected`, `run`, `Env.FaultFree`, `Env.Safe`) in `VncModel/Ws/Spec.lean`.
+
+**What is modelled.**  The hybi frame decoder `ws_decode.c` *with fixes/C09-ws-header-split.diff
+applied* (`decode` = `webSocketsDecodeHybi`, transliterated function by function; the 2062-byte
+buffer as explicit offsets; every `readFunc` call goes through the oracle `Env.read`, which answers
+with a non-empty prefix of the pending bytes, EAGAIN, end of stream or a hard error and records the
+request); the encoder `webSocketsEncodeHybi` and the 32 KiB chunking of `rfbWriteExact`; base64.c;
+the upgrade handshake.  Constants (buffer sizes, header lengths, opcodes, encoder thresholds,
+UPDATE_BUF_SIZE) come from `VncModel.Gen.C09`, regenerated from the tree on every run.
+The model is tied to the code by an exact differential run (harness/c09.c ⇄ Driver/C09.lean):
+every call's result, every read request and the whole decoder state are compared.
+
+**What the theorems mean.**
+* `decoder_transparent` — the heart: for EVERY valid sequence of masked client frames (any sizes,
+  fragmentation with continuation frames, interleaved ping/pong and other non-Close control frames,
+  any masks, binary and base64/text messages), EVERY read-oracle schedule without end-of-stream
+  (arbitrary chunking, EAGAIN anywhere) and EVERY sequence of caller lengths: no call fails, the
+  bytes handed to the caller so far are a prefix of the unmasked (for text: base64-decoded) payload
+  stream, what is still owed is exactly the rest, and every read request the decoder issued lies
+  inside its buffer with a positive size (memory-safety core, reused by C04).
+* `decoder_complete` — if moreover all input is consumed and nothing is buffered, the caller has
+  received exactly the whole payload stream.
+* `strict_*` — unmasked frame, fragmented control frame, continuation without start, non-minimal
+  length encodings, Close: the call ends with EPROTO / ECONNRESET (decoder reset) and never returns
+  payload; quantified over every decoder state and every oracle.
+* `header_roundtrip`, `encoder_valid`, `write_chunking_valid` — what the server sends parses (with an
+  independent RFC 6455 parser, `parseHeader` / `parseFrames`) as unmasked final frames whose
+  payloads concatenate to the data written; `encoder_header_65536_wraps` pins down the off-by-one
+  of the encoder's `blen <= 65536` test, `encoder_lengths_below_65536` shows it is unreachable.
+* `ws_split_counterexample_unfixed` — the defect of the unpatched tree (DESIGN.md 11-b): a valid frame
+  and a fault-free schedule after which the old first-read length `6 - nRead` is -1, i.e.
+  `read(buf + 7, (size_t)-1)`.
+
+**Base64.**  Text frames are decoded with the model of base64.c (`pton`/`ntop`, transliterated and
+compared with the C routines on every run); its round-trip law `pton (ntop z) = z` is proved
+(`base64_roundtrip`), so the text-mode statements carry no assumption.
+
+**Partial / not covered.**  The stream-level strictness statement "after the valid prefix the bad
+frame yields an error" is given per call (`strict_*`, each quantified over every decoder state and
+oracle), not as one run theorem.  The handshake theorem covers the response construction, the
+byte-wise header scanner is tied by the differential run only.  TLS (`wss`) and timing (a lone
+control frame followed by silence, see docs/C09.md) are outside the model.
+-/
+namespace VncModel.Props.C09
+open VncModel.Ws VncModel.Gen
+
+/-! ## masking -/
+
+/-- XOR masking with a fixed phase is an involution (client masking = server unmasking) -/
+theorem mask_involutive (m : Mask) (i : Nat) (bs : List Byte) : xorFrom m i (xorFrom m i bs) = bs :=
+  xorFrom_involutive m i bs
+
+example : xorMask ⟨1, 2, 3, 4⟩ (xorMask ⟨1, 2, 3, 4⟩ [10, 20, 30, 40, 50]) = [10, 20, 30, 40, 50] := by decide
+
+/-- the decoder's word-wise unmasking (phase 0 at the chunk start) is correct for every chunk that
+starts at a payload offset divisible by four — which the carry discipline guarantees -/
+theorem mask_phase_aligned (m : Mask) (a : Nat) (h : a % 4 = 0) (bs : List Byte) :
+    xorMask m (xorFrom m a bs) = bs :=
+  xorMask_xorFrom_aligned m a h bs
+
+/-! ## base64 -/
+
+/-- the law of base64.c for the model: decoding an encoding returns the original whenever the
+target buffer is larger than the data -/
+theorem base64_roundtrip (z : List Byte) (ts : Nat) (h : z.length < ts) : pton (ntop z) ts = some z :=
+  pton_ntop z ts h
+
+private theorem b64Law : B64RoundTrip := fun z ts h => pton_ntop z ts h
+
+example : pton (ntop [1, 2, 3, 4]) 10 = some [1, 2, 3, 4] := by decide
+
+/-! ## transparency under all schedules -/
+
+/-- **decoder_transparent.**  See the header comment. -/
+theorem decoder_transparent (fs : List Frame) (hv : ValidSeq opInvalid fs)
+    (e : Env) (hp : e.pending = wireOf fs) (hff : e.FaultFree) (hs : e.Safe)
+    (lens : List Nat) (hl : ∀ l ∈ lens, 0 < l) :
+    (∀ o ∈ (run Ctx.init e lens).outs, o.fine = true) ∧
+    (∃ rest, expected opInvalid fs = delivered (run Ctx.init e lens).outs ++ rest ∧
+       Inv (run Ctx.init e lens).c (run Ctx.init e lens).e.pending rest) ∧
+    (run Ctx.init e lens).e.Safe := by
+  obtain ⟨h1, V', h2, h3, _, h5⟩ :=
+    run_inv b64Law lens hl Ctx.init e (expected opInvalid fs) (hp ▸ Inv_init fs hv) hff hs
+  exact ⟨h1, ⟨V', h2, h3⟩, h5⟩
+
+/-- the delivered bytes are always a prefix of the payload stream -/
+theorem decoder_delivers_prefix (fs : List Frame) (hv : ValidSeq opInvalid fs)
+    (e : Env) (hp : e.pending = wireOf fs) (hff : e.FaultFree) (hs : e.Safe)
+    (lens : List Nat) (hl : ∀ l ∈ lens, 0 < l) :
+    delivered (run Ctx.init e lens).outs <+: expected opInvalid fs := by
+  obtain ⟨_, ⟨rest, h, _⟩, _⟩ := decoder_transparent fs hv e hp hff hs lens hl
+  exact ⟨rest, h.symm⟩
+
+/-- **decoder_complete.**  All input consumed and nothing buffered ⇒ the caller got everything. -/
+theorem decoder_complete (fs : List Frame) (hv : ValidSeq opInvalid fs)
+    (e : Env) (hp : e.pending = wireOf fs) (hff : e.FaultFree) (hs : e.Safe)
+    (lens : List Nat) (hl : ∀ l ∈ lens, 0 < l)
+    (hdone : (run Ctx.init e lens).e.pending = []) (hbuf : (run Ctx.init e lens).c.readlen = 0) :
+    delivered (run Ctx.init e lens).outs = expected opInvalid fs := by
+  obtain ⟨_, ⟨rest, h, hinv⟩, _⟩ := decoder_transparent fs hv e hp hff hs lens hl
+  rw [hdone] at hinv
+  rw [h, Inv_finished _ _ hinv hbuf, List.append_nil]
+
+/-- one call, from any state the invariant describes: either bytes (at most `len`, the next ones
+owed) or EAGAIN; never an error, never an out-of-buffer read -/
+theorem decoder_step (c : Ctx) (e : Env) (V : List Byte) (len : Nat)
+    (hinv : Inv c e.pending V) (hff : e.FaultFree) (hs : e.Safe) (hlen : 0 < len) :
+    ∃ out V', (decode c e len).2.2 = (if out = [] then Res.again else Res.data out) ∧
+      out.length ≤ len ∧ V = out ++ V' ∧
+      Inv (decode c e len).1 (decode c e len).2.1.pending V' ∧
+      (decode c e len).2.1.FaultFree ∧ (decode c e len).2.1.Safe :=
+  decode_step b64Law c e V len hinv hff hs hlen
+
+-- non-vacuity: a fragmented binary message with a ping inside, then a base64 text frame
+private def exFrames : List Frame :=
+  [⟨0x02, ⟨1, 2, 3, 4⟩, [1, 2, 3, 4, 5]⟩,          -- binary, FIN clear
+   ⟨0x89, ⟨9, 9, 9, 9⟩, [7]⟩,                      -- ping
+   ⟨0x80, ⟨0, 0, 0, 0⟩, [6, 7]⟩,                   -- continuation, FIN
+   ⟨0x81, ⟨5, 6, 7, 8⟩, ntop [0x52, 0x46, 0x42]⟩]  -- text "UkZC"
+example : ValidSeq opInvalid exFrames := by
+  refine ⟨⟨by decide, fun h => absurd h (by decide), fun _ => ⟨fun h => absurd h (by decide), Or.inl (by decide)⟩⟩,
+          ⟨by decide, fun _ => by decide, fun h => absurd h (by decide)⟩,
+          ⟨by decide, fun h => absurd h (by decide), fun _ => ⟨fun _ => by decide, Or.inl (by decide)⟩⟩,
+          ⟨by decide, fun h => absurd h (by decide),
+            fun _ => ⟨fun h => absurd h (by decide), Or.inr ⟨by decide, _, rfl⟩⟩⟩, trivial⟩
+example : ({ pending := wireOf exFrames, sched := [.chunk 0, .eagain, .chunk 4], cycle := [.chunk 2, .eagain] } : Env).FaultFree := by
+  simp [Env.FaultFree, Resp.benign]
+example : ({ pending := [], sched := [] } : Env).Safe := by intro r hr; cases hr
+
+/-! ## strictness -/
+
+/-- **strict (unmasked).**  As soon as the second header byte is there with the MASK bit clear the
+call fails with EPROTO, returns no payload and resets the decoder — for every decoder state in
+HEADER_PENDING, every oracle answer `bs` to the header read. -/
+theorem strict_unmasked (c : Ctx) (e e1 : Env) (len : Nat) (bs : List Byte) (b0 b1 : Byte) (tl : List Byte)
+    (hst : c.st = .headerPending) (hrd : e.read c.nRead (hdrMissing c) = (.data bs, e1))
+    (hh : c.hdr ++ bs = b0 :: b1 :: tl) (hm : b1 &&& 0x80 = 0) :
+    (decode c e len).2.2 = .err .eproto ∧ (decode c e len).1.st = .headerPending ∧
+    (decode c e len).1.hdr = [] ∧ (decode c e len).1.contOp = opInvalid := by
+  obtain ⟨c', hp⟩ := parse2_unmasked { c with hdr := c.hdr ++ bs } b0 b1 tl hh hm
+  rw [decode_parse2_error c e e1 len bs .eproto c' hst hrd hp]
+  exact ⟨rfl, rfl, rfl, rfl⟩
+
+/-- **strict (fragmented control frame).** -/
+theorem strict_fragmented_control (c : Ctx) (e e1 : Env) (len : Nat) (bs : List Byte) (b0 b1 : Byte)
+    (tl : List Byte) (hst : c.st = .headerPending)
+    (hrd : e.read c.nRead (hdrMissing c) = (.data bs, e1)) (hh : c.hdr ++ bs = b0 :: b1 :: tl)
+    (hctl : (b0 &&& 0x0f) &&& 0x08 != 0) (hfin : (b0 &&& 0x80) >>> 7 = 0) :
+    (decode c e len).2.2 = .err .eproto ∧ (decode c e len).1.hdr = [] := by
+  obtain ⟨c', hp⟩ := parse2_fragmented_control { c with hdr := c.hdr ++ bs } b0 b1 tl hh hctl hfin
+  rw [decode_parse2_error c e e1 len bs .eproto c' hst hrd hp]
+  exact ⟨rfl, rfl⟩
+
+/-- **strict (continuation without start).** -/
+theorem strict_continuation_without_start (c : Ctx) (e e1 : Env) (len : Nat) (bs : List Byte)
+    (b0 b1 : Byte) (tl : List Byte) (hst : c.st = .headerPending)
+    (hrd : e.read c.nRead (hdrMissing c) = (.data bs, e1)) (hh : c.hdr ++ bs = b0 :: b1 :: tl)
+    (hnc : ((b0 &&& 0x0f) &&& 0x08 != 0) = false) (hop : b0 &&& 0x0f = opContinuation)
+    (hco : c.contOp = opInvalid) :
+    (decode c e len).2.2 = .err .eproto ∧ (decode c e len).1.hdr = [] := by
+  obtain ⟨c', hp⟩ :=
+    parse2_continuation_without_start { c with hdr := c.hdr ++ bs } b0 b1 tl hh hnc hop hco
+  rw [decode_parse2_error c e e1 len bs .eproto c' hst hrd hp]
+  exact ⟨rfl, rfl⟩
+
+/-- **strict (non-minimal 16-bit length).**  The complete header of a frame that uses the 16-bit
+form for a length below 126 is rejected by the only function that lets a header through
+(`finishHeader`, see `strict_header_gate`). -/
+theorem strict_nonminimal16 (c : Ctx) (e : Env) (b0 b1 l0 l1 m0 m1 m2 m3 : Byte) (tl : List Byte)
+    (hpl : c.payloadLen = 126) (hh : c.hdr = b0 :: b1 :: l0 :: l1 :: m0 :: m1 :: m2 :: m3 :: tl)
+    (hlen : beDec [l0, l1] < 126) :
+    (finishHeader c e).st = .err ∧ (finishHeader c e).res = .err .eproto ∧
+    (finishHeader c e).c.st = .headerPending ∧ (finishHeader c e).c.hdr = [] :=
+  finishHeader_nonminimal16 c e b0 b1 l0 l1 m0 m1 m2 m3 tl hpl hh hlen
+
+/-- **strict (non-minimal 64-bit length).** -/
+theorem strict_nonminimal64 (c : Ctx) (e : Env)
+    (b0 b1 l0 l1 l2 l3 l4 l5 l6 l7 m0 m1 m2 m3 : Byte) (tl : List Byte) (hpl : c.payloadLen = 127)
+    (hh : c.hdr = b0 :: b1 :: l0 :: l1 :: l2 :: l3 :: l4 :: l5 :: l6 :: l7 :: m0 :: m1 :: m2 :: m3 :: tl)
+    (hlen : beDec [l0, l1, l2, l3, l4, l5, l6, l7] < 65536) :
+    (finishHeader c e).st = .err ∧ (finishHeader c e).res = .err .eproto ∧
+    (finishHeader c e).c.st = .headerPending ∧ (finishHeader c e).c.hdr = [] :=
+  finishHeader_nonminimal64 c e b0 b1 l0 l1 l2 l3 l4 l5 l6 l7 m0 m1 m2 m3 tl hpl hh hlen
+
+/-- a call that starts in HEADER_PENDING and does not get a header through `readHeader` (error or
+still incomplete) returns no payload, whatever the state and the oracle -/
+theorem strict_header_gate (c : Ctx) (e : Env) (len : Nat) (hst : c.st = .headerPending)
+    (h : (readHeader c e).st = .err ∨ (readHeader c e).st = .headerPending) (bs : List Byte) :
+    (decode c e len).2.2 ≠ .data bs :=
+  decode_header_no_data c e len hst h bs
+
+/-- **strict (Close).**  While a Close frame is being received no call returns payload; the call
+that completes it fails with ECONNRESET. -/
+theorem strict_close (c : Ctx) (e : Env) (len : Nat) (bs : List Byte)
+    (hst : c.st = .dataNeeded ∨ c.st = .closeReasonPending) (hop : c.opcode = opClose) :
+    (decode c e len).2.2 ≠ .data bs :=
+  decode_close_no_data c e len bs hst hop
+
+theorem strict_close_complete (c : Ctx) (e : Env) (len wpEnd bufsize : Nat) (data : List Byte)
+    (hop : c.opcode = opClose) (hrem : c.remaining = 0) :
+    (finishChunk c e len wpEnd bufsize data).res = .err .econnreset ∧
+    (finishChunk c e len wpEnd bufsize data).st = .frameComplete := by
+  refine ⟨by rw [finishChunk_close _ _ _ _ _ _ hop, if_pos hrem], ?_⟩
+  unfold finishChunk
+  have : (c.payloadLen + 2 ^ 64 - c.nReadPayload) % 2 ^ 64 = 0 := hrem
+  simp [hop, Ctx.remaining, this]
+
+-- non-vacuity of the strictness hypotheses: an unmasked text frame header arriving in one read
+example : ∃ (e e1 : Env) (bs : List Byte), e.read Ctx.init.nRead (hdrMissing Ctx.init) = (.data bs, e1) ∧
+    Ctx.init.hdr ++ bs = 0x81 :: 0x05 :: [0x48, 0x65, 0x6c, 0x6c] ∧ (0x05 : Byte) &&& 0x80 = 0 :=
+  ⟨{ pending := [0x81, 0x05, 0x48, 0x65, 0x6c, 0x6c, 0x6f], sched := [] }, _, _, rfl, by decide, by decide⟩
+
+/-! ## what the server sends -/
+
+/-- **header_roundtrip.**  The header `webSocketsEncodeHybi` writes for opcode text/binary and payload
+length `n`, read back by the RFC 6455 parser: FIN, unmasked, same opcode, same length, for all
+lengths (125/126, 65535, > 65536 boundaries included) except exactly 65536. -/
+theorem header_roundtrip (op : Byte) (hop : op = opText ∨ op = opBinary) (n : Nat) (hn : n < 2 ^ 64)
+    (h65536 : n ≠ 65536) (rest : List Byte) :
+    parseHeader (encHeader op n ++ rest) = some ⟨true, op, false, n, (encHeader op n).length⟩ :=
+  parseHeader_encHeader op hop n hn h65536 rest
+
+example : parseHeader (encHeader opBinary 125 ++ [1]) = some ⟨true, opBinary, false, 125, 2⟩ := by decide
+example : parseHeader (encHeader opBinary 126 ++ [1]) = some ⟨true, opBinary, false, 126, 4⟩ := by decide
+example : parseHeader (encHeader opText 65535 ++ []) = some ⟨true, opText, false, 65535, 4⟩ := by decide
+example : parseHeader (encHeader opText 65537 ++ []) = some ⟨true, opText, false, 65537, 10⟩ := by decide
+
+/-- the code's `blen <= 65536` (instead of `< 65536`): a 65536-byte payload would be announced as
+0 bytes -/
+theorem encoder_header_65536_wraps (rest : List Byte) :
+    parseHeader (encHeader opBinary 65536 ++ rest) = some ⟨true, opBinary, false, 0, 4⟩ :=
+  encHeader_65536 rest
+
+/-- … but the encoder never produces such a frame: its input is limited to UPDATE_BUF_SIZE, so the
+(base64) payload stays below 65536 (re-proved against the regenerated constants) -/
+theorem encoder_lengths_below_65536 (base64 : Bool) (src : List Byte)
+    (hle : src.length ≤ C09.updateBufSize) : (encPayload base64 src).length < 65536 :=
+  encodeHybi_lengths base64 src hle
+
+/-- **encoder_valid.**  `webSocketsEncodeHybi` output = exactly one unmasked FIN frame of the mode's
+opcode whose payload is the input (binary) resp. its base64 text, which decodes to the input. -/
+theorem encoder_valid (base64 : Bool) (src : List Byte) (h0 : src ≠ [])
+    (hle : src.length ≤ C09.updateBufSize) :
+    ∃ w, encodeHybi base64 src = some w ∧
+      parseFrames 1 w = some [(encOp base64, encPayload base64 src)] ∧
+      (base64 = false → encPayload base64 src = src) ∧
+      (base64 = true → b64Inv (encPayload base64 src) = src) := by
+  refine ⟨_, encodeHybi_eq base64 src h0 hle, ?_, ?_, ?_⟩
+  · have hl := encodeHybi_lengths base64 src hle
+    have := parseFrames_cons (encOp base64) (encOp_cases base64) (encPayload base64 src) []
+      (by omega) (by omega) 0 [] (by simp [parseFrames])
+    simpa using this
+  · intro h; simp [encPayload, h]
+  · intro h
+    have hl : src.length < (ntop src).length + 1 := by rw [ntop_length]; omega
+    simp [encPayload, h, b64Inv, b64Law src _ hl]
+
+example : encodeHybi false [0x52, 0x46, 0x42] = some [0x82, 0x03, 0x52, 0x46, 0x42] := by decide
+example : encodeHybi true [0x52, 0x46, 0x42] = some [0x81, 0x04, 0x55, 0x6b, 0x5a, 0x43] := by decide
+
+/-- **write_chunking_valid.**  Everything `rfbWriteExact` puts on the wire for one call on a
+WebSocket client: a sequence of unmasked FIN frames of the mode's opcode whose payloads are the
+(base64 texts of the) consecutive ≤ 32 KiB chunks of the buffer, in order. -/
+theorem write_chunking_valid (base64 : Bool) (buf : List Byte) :
+    ∃ w frames, wsWrite base64 buf = some w ∧
+      parseFrames (buf.length / C09.updateBufSize + 1) w = some frames ∧
+      (∀ fr ∈ frames, fr.1 = encOp base64) ∧
+      ∃ chunks : List (List Byte), chunks.flatten = buf ∧
+        frames.map Prod.snd = chunks.map (encPayload base64) :=
+  wsWriteFuel_valid base64 _ buf (Nat.le_refl _)
+
+/-- binary mode: the payloads concatenate to the buffer -/
+theorem write_chunking_binary (buf : List Byte) :
+    ∃ w frames, wsWrite false buf = some w ∧
+      parseFrames (buf.length / C09.updateBufSize + 1) w = some frames ∧
+      (frames.map Prod.snd).flatten = buf := by
+  obtain ⟨w, frames, h1, h2, _, chunks, h4, h5⟩ := write_chunking_valid false buf
+  refine ⟨w, frames, h1, h2, ?_⟩
+  have hid : (fun x : List Byte => encPayload false x) = id := by funext x; simp [encPayload]
+  rw [h5, ← h4]
+  show (chunks.map (fun x => encPayload false x)).flatten = chunks.flatten
+  rw [hid, List.map_id]
+
+/-! ## the defect of the unpatched decoder (DESIGN.md section 11-b) -/
+
+private def cexFrame : Frame := ⟨0x82, ⟨0xaa, 0xbb, 0xcc, 0xdd⟩, List.replicate 128 0x41⟩
+private def cexEnv : Env := { pending := cexFrame.wire, sched := [.chunk 5, .chunk 0] }
+
+set_option maxRecDepth 10000 in
+/-- A valid 128-byte binary frame whose 8-byte header arrives as 6 + 1 bytes (no EAGAIN, no error):
+the first call leaves the decoder in HEADER_PENDING with 7 header bytes (identically in the patched
+and the unpatched code: both ask for 6, then for 2 bytes).  On re-entry the unpatched code computes
+its read length as `6 - nRead = -1`, i.e. `readFunc(ctx, codeBufDecode + 7, (size_t)-1)`: the
+property's "every read request is positive and inside the buffer" fails.  The patched code asks
+for `8 - 7 = 1` byte. -/
+theorem ws_split_counterexample_unfixed :
+    cexFrame.ok opInvalid ∧ cexEnv.FaultFree ∧ cexEnv.pending = wireOf [cexFrame] ∧
+    (decode Ctx.init cexEnv 4096).2.2 = .again ∧
+    (decode Ctx.init cexEnv 4096).1.st = .headerPending ∧
+    (decode Ctx.init cexEnv 4096).1.nRead = 7 ∧
+    hdrReadLenUnfixed (decode Ctx.init cexEnv 4096).1 = -1 ∧
+    hdrMissing (decode Ctx.init cexEnv 4096).1 = 1 := by
+  refine ⟨⟨by simp [cexFrame], fun h => absurd h (by decide), fun _ => ⟨by decide, Or.inl (by decide)⟩⟩,
+    by simp [Env.FaultFree, cexEnv, Resp.benign], by simp [cexEnv, wireOf],
+    by decide, by decide, by decide, by decide, by decide⟩
+
+/-! ## handshake -/
+
+/-- shape of every successful handshake of the model: the 101 response is the code's template
+filled with `base64 (sha1 (key ++ GUID))` for the key of the request and with the chosen
+sub-protocol; base64 is chosen iff the offered protocols mention it, else binary iff they mention
+it, else no protocol line -/
+theorem handshake_accept_key (sha1 : List Byte → List Byte) (req resp path unread : List Byte) (b64 : Bool)
+    (h : handshake sha1 req = .ok resp b64 path unread) :
+    ∃ key : List Byte, ∃ proto : Option (List Byte),
+      (scanRequest req [] 0 {}).1.key = some key ∧ (scanRequest req [] 0 {}).1.protocol = proto ∧
+      b64 = (match proto with | some p => hasInfix bBase64 p | none => false) ∧
+      (resp = fmt2 C09.handshakeFmt (ntop (sha1 (key ++ strBytes C09.guid))) bBase64 ∨
+       resp = fmt2 C09.handshakeFmt (ntop (sha1 (key ++ strBytes C09.guid))) bBinary ∨
+       resp = fmt2 C09.handshakeFmtNoProto (ntop (sha1 (key ++ strBytes C09.guid))) []) := by
+  unfold handshake at h
+  split at h
+  · cases h
+  · generalize scanRequest req [] 0 {} = sr at h ⊢
+    obtain ⟨s, un⟩ := sr
+    simp only at h ⊢
+    split at h
+    · cases h
+    · cases hkey : s.key with
+      | none => simp [hkey] at h
+      | some key =>
+        cases hpath : s.path with
+        | none => simp [hkey, hpath] at h
+        | some p =>
+          cases hhost : s.host with
+          | none => simp [hkey, hpath, hhost] at h
+          | some hst =>
+            simp only [hkey, hpath, hhost] at h
+            split at h
+            · cases h
+            · simp only [HsResult.ok.injEq] at h
+              obtain ⟨h1, h2, _, _⟩ := h
+              refine ⟨key, s.protocol, rfl, rfl, h2.symm, ?_⟩
+              rw [← h1]
+              simp only [acceptKey]
+              cases hpr : s.protocol with
+              | none => right; right; simp
+              | some pr =>
+                have l1 : bBase64.length > 0 := by decide
+                have l2 : bBinary.length > 0 := by decide
+                simp only
+                by_cases hb : hasInfix bBase64 pr = true
+                · left; simp only [hb, if_true, l1]
+                · by_cases hbin : hasInfix bBinary pr = true
+                  · right; left; simp only [hb, hbin, if_true, l2]; simp; intro h; exact absurd h (by decide)
+                  · right; right; simp [hb, hbin]
 
 end VncModel.Props.C09
